@@ -33,7 +33,8 @@ Fixpoint norm (p : str) (x : xt) : xt :=
   | XString a b u _ => XString a b u false
   | XArray e a b => XArray (norm p e) a b
   | XTuple es => XTuple (map (norm p) es)
-  | XStruct ms opt _ => XStruct (map (fun q => (fst q, norm p (snd q))) ms) opt true
+  | XStruct ms opt _ =>
+      XStruct (map (fun q => (fst q, norm p (snd q))) ms) (if set_neq opt (map fst ms) then opt else map fst ms) true
   | _ => x
   end.
 
@@ -44,6 +45,26 @@ Fixpoint depth (x : xt) : nat :=
   | XStruct ms _ _ => S (fold_right (fun q n => Nat.max (depth (snd q)) n) 0 ms)
   | _ => 1
   end.
+
+Lemma str_eqb_refl (a : str) : str_eqb a a = true.
+Proof. induction a as [|c a IH]; [reflexivity|]. cbn. rewrite N.eqb_refl. exact IH. Qed.
+Lemma str_eqb_eq (a b : str) : str_eqb a b = true -> a = b.
+Proof.
+  revert b. induction a as [|c a IH]; destruct b as [|d b]; cbn; try discriminate; [reflexivity|].
+  intros H. apply andb_true_iff in H as [H1 H2]. apply N.eqb_eq in H1. subst. f_equal. apply IH, H2.
+Qed.
+Lemma mem_str_app k l1 l2 : mem_str k (l1 ++ l2) = mem_str k l1 || mem_str k l2.
+Proof. induction l1 as [|x l1 IH]; [reflexivity|]. cbn. rewrite IH. apply orb_assoc. Qed.
+Lemma incl_str_refl l : incl_str l l = true.
+Proof.
+  unfold incl_str. assert (E : forall pre l, forallb (fun k => mem_str k (pre ++ l)) l = true).
+  { intros pre l0. revert pre. induction l0 as [|x l0 IH]; intros pre; [reflexivity|]. cbn [forallb].
+    rewrite mem_str_app. cbn [mem_str]. rewrite str_eqb_refl, orb_true_r. cbn.
+    replace (pre ++ x :: l0) with ((pre ++ [x]) ++ l0) by (rewrite <- app_assoc; reflexivity). apply IH. }
+  apply (E [] l).
+Qed.
+Lemma set_neq_refl l : set_neq l l = false.
+Proof. unfold set_neq. rewrite incl_str_refl. reflexivity. Qed.
 
 (* export only looks at what norm keeps *)
 Lemma export_norm p : forall x, xt_export (norm p x) = xt_export x.
@@ -66,7 +87,8 @@ Proof.
       (fix go (l : list (str * xt)) : res (list (str * pyval)) :=
          match l with [] => Ok [] | (n, e) :: r => xt_export e >>= fun j => go r >>= fun js => Ok ((n, j) :: js) end) l).
     { induction 1 as [|[n e] l He Hl IHl]; [reflexivity|]. cbn [map fst snd] in *. rewrite He, IHl. reflexivity. }
-    rewrite (E ms H). rewrite map_map. cbn [fst]. reflexivity.
+    rewrite (E ms H). rewrite map_map. cbn [fst]. change (map (fun x : str * xt => fst x) ms) with (map fst ms).
+    destruct (set_neq opt (map fst ms)) eqn:C; [rewrite C; reflexivity|]. rewrite set_neq_refl. reflexivity.
 Qed.
 
 (* ------------------------------------------------------------------ float equality against a finite constant *)
@@ -82,4 +104,89 @@ Proof.
       destruct (Pos.compare_cont Eq m' m) eqn:Em; try discriminate;
       apply Pos.compare_eq in Em; subst; auto. }
   f_equal. apply UIP_dec. apply bool_dec.
+Qed.
+
+(* ------------------------------------------------------------------ constructible (well-formed) described types:
+   every property value is a fixed point of the datatype that frappy declares for that property (HasProperties
+   stores only validated values), limits are ordered, scaled limits lie on the grid *)
+Definition fixf (pv : pyval -> res pyval) (f : f64) : Prop := pv (PFloat f) = Ok (PFloat f).
+Definition fixz (pv : pyval -> res pyval) (z : Z) : Prop := pv (PInt z) = Ok (PInt z).
+Definition fixs (pv : pyval -> res pyval) (s : str) : Prop := pv (PStr s) = Ok (PStr s).
+
+Definition grid_aligned (s x : f64) : Prop :=
+  exists k kf, scaled_int x s = Ok k /\ float_of_Z k = Some kf /\ pv_float (PFloat (fmul kf s)) = Ok (PFloat x).
+
+Fixpoint wfx (x : xt) : Prop :=
+  match x with
+  | XFloat mn mx a r u f =>
+      fixf pv_float mn /\ fixf pv_float mx /\ fixf pv_float0 a /\ fixf pv_float0 r /\ fixs pv_unit u /\ fixs pv_fmt f /\
+      has_pct f = true /\ flt mx mn = false
+  | XInt mn mx => fixz pv_intU mn /\ fixz pv_intU mx /\ (mx <? mn)%Z = false
+  | XScaled s mn mx a r u f =>
+      fixf pv_scale s /\ fixf pv_float0 s /\ grid_aligned s mn /\ grid_aligned s mx /\ fixf pv_float0 a /\
+      fixf pv_float0 r /\ fixs pv_unit u /\ fixs pv_fmt f /\ has_pct f = true /\ flt mx mn = false
+  | XBool => True
+  | XEnum _ ms => enum_add (map (fun q => (fst q, PInt (snd q))) ms) [] = Ok ms /\ ms <> []
+  | XString a b _ _ => fixz pv_int0U a /\ fixz pv_int0U b /\ (b <? a)%Z = false
+  | XBlob a b => fixz pv_int0 a /\ fixz pv_int0 b /\ (b <? a)%Z = false
+  | XArray e a b => wfx e /\ fixz pv_int0 a /\ fixz pv_int0 b /\ (b <? a)%Z = false
+  | XTuple es => es <> [] /\ (fix all (l : list xt) : Prop := match l with [] => True | e :: r => wfx e /\ all r end) es
+  | XStruct ms opt _ =>
+      ms <> [] /\ forallb (fun n => mem_str n (map fst ms)) opt = true /\
+      (fix all (l : list (str * xt)) : Prop := match l with [] => True | q :: r => wfx (snd q) /\ all r end) ms
+  end.
+
+(* the shapes whose description is lossy on the pinned tree (findings): a mandatory property that equals the default
+   of its property datatype is not exported (BLOBType maxbytes = 0, ScaledInteger scale = float_info.min); a
+   StringType with minchars > 0 and unlimited maxchars is rebuilt with maxchars = minchars *)
+Fixpoint lossless (x : xt) : Prop :=
+  match x with
+  | XScaled s _ _ _ _ _ _ => fne s dblmin = true
+  | XString a b _ _ => a = 0%Z \/ b <> UNL
+  | XBlob _ b => b <> 0%Z
+  | XArray e _ _ => lossless e
+  | XTuple es => (fix all (l : list xt) : Prop := match l with [] => True | e :: r => lossless e /\ all r end) es
+  | XStruct ms _ _ =>
+      (fix all (l : list (str * xt)) : Prop := match l with [] => True | q :: r => lossless (snd q) /\ all r end) ms
+  | _ => True
+  end.
+
+Lemma feq_eq (a b : f64) :
+  match b with B754_finite _ _ _ _ => True | _ => False end -> feq a b = true -> a = b.
+Proof. destruct b; try contradiction. intros _. apply feq_finite_eq. Qed.
+
+Lemma feq_zero_fix (a : f64) : feq a fzero = true -> fixf pv_float0 a -> a = fzero.
+Proof.
+  destruct a as [[|]|[|]| |[|] m e B]; try (cbn; discriminate); [|reflexivity].
+  intros _ H. vm_compute in H. discriminate.
+Qed.
+
+Lemma scale_is_finite (s : f64) : fixf pv_scale s -> match s with B754_finite _ _ _ _ => True | _ => False end.
+Proof. destruct s as [[|]|[|]| |]; intros H; try exact I; vm_compute in H; discriminate. Qed.
+
+(* evaluation of the table lookups on a concrete description (values stay symbolic) *)
+Ltac ev_lookup :=
+  repeat match goal with
+  | |- context [split_json ?j] => let t := eval vm_compute in (split_json j) in change (split_json j) with t
+  | |- context [bind_ok ?a ?b] => let t := eval vm_compute in (bind_ok a b) in change (bind_ok a b) with t
+  | |- context [arg ?a ?b ?c] => let t := eval vm_compute in (arg a b c) in change (arg a b c) with t
+  | |- context [arg_pos ?a ?b ?c] => let t := eval vm_compute in (arg_pos a b c) in change (arg_pos a b c) with t
+  | |- context [farg ?a ?b ?c] => let t := eval vm_compute in (farg a b c) in change (farg a b c) with t
+  end.
+
+Ltac leaf_step ty :=
+  cbn [get_dt]; ev_lookup; cbn [bind negb];
+  match goal with |- context [leaf_of ?p ?t ?kw] =>
+    let r := eval cbv beta iota delta [leaf_of] in (leaf_of p t kw) in
+    let r' := eval cbn [str_eqb list_eqb N.eqb Pos.eqb andb s2l N_of_ascii N_of_digits] in r in idtac
+  end.
+
+Lemma rebuild_int fuel p mn mx : wfx (XInt mn mx) ->
+  get_dt (S fuel) p (PDict [($"max", PInt mx); ($"min", PInt mn); ($"type", PStr $"int")]) = Ok (Some (XInt mn mx)).
+Proof.
+  intros (Hmn & Hmx & Hle). cbn [get_dt]. ev_lookup. cbn [bind negb].
+  change (leaf_of p $"int" [($"max", PInt mx); ($"min", PInt mn)])
+    with (Some (mk_int (arg $"int" $"min" [($"max", PInt mx); ($"min", PInt mn)])
+                       (arg $"int" $"max" [($"max", PInt mx); ($"min", PInt mn)]))).
+  ev_lookup. unfold mk_int, some_xt. rewrite Hmn, Hmx. cbn [as_z bind]. rewrite Hle. reflexivity.
 Qed.
